@@ -90,6 +90,16 @@ def main(argv=None):
         print('INCONCLUSIVE property=%s build failed: %s' % (cid, e))
         return 2
     tmp = tempfile.mkdtemp(prefix='pyxtuml-verif-out-')
+
+    def terminated(signum, frame):
+        # remove the scratch copies and leave at once; the workers die with the runner (PR_SET_PDEATHSIG)
+        import shutil
+        build.remove(root)
+        shutil.rmtree(tmp, ignore_errors=True)
+        os._exit(2)
+    import signal
+    for sg in (signal.SIGTERM, signal.SIGHUP):
+        signal.signal(sg, terminated)
     try:
         return _run(mod, cid, tier, seed, root, tmp, opts, t0)
     finally:
